@@ -44,7 +44,7 @@ Steps(p, au, path) ==
 \* "reopen-late": a command is sent and the device's answer comes too late - the operation times out, the answer arrives
 \* afterwards and nobody reads it; the caller closes and opens the same driver again.  The device starts the new session in the
 \* mode it starts every session in; what the old session left unread must not be taken for the state of the new one, so the
-\* operation after it (a configs) takes the path from the start mode.
+\* operation after it (a configs, or a plain command) takes the path from the start mode.
 OpKinds == << "acquire", "command", "configs", "configs-at", "acquire", "interactive", "command", "acquire-unknown", "config", "configs-leave",
               "rename", "configs-stalled", "configs-file-at", "configs-at-unknown", "reopen-late" >>
 
@@ -57,7 +57,9 @@ RunOps(m, p, au, def, conf, mode, j, left, tw, st) ==
            \* a stalled transition is only generated for a first step that needs no password (the dialogue would hang in the middle otherwise)
            \* and only without twin levels: after a transition that was started the cache is rightly forgotten, and without it twins cannot be told apart
            stallable == ~tw /\ Len(pathc) >= 2 /\ (p[pathc[1]] = pathc[2] \/ au[pathc[2]] = "no")
-           kind == CASE left \in {"leave", "reopened"} -> "configs"
+           \* after a reopen: a configuration batch or - every other time - a plain command, which trusts the cached level outright
+           kind == CASE left = "leave" -> "configs"
+                     [] left = "reopened" -> (IF (m + j) % 2 = 0 THEN "configs" ELSE "command")
                      [] left = "stalled" -> "command"
                      [] kind0 = "configs-leave" /\ p[conf] = NONE -> "configs"
                      [] kind0 = "configs-stalled" /\ ~stallable -> "configs"
